@@ -756,7 +756,7 @@ static void mf_tuple(int f, double const *p, vf_rng *r, int want_sample)
 }
 
 /* ------------------------------------------------------------------ MF: parameter generators */
-static double const mf_scales[7] = {1, 1e-3, 1e3, 1e-30, 1e30, 1e-150, 1e150};
+static double const mf_scales[9] = {1, 1e-3, 1e3, 1e-30, 1e30, 1e-150, 1e150, 1e-250, 1e250}; /* the last two: widths whose SQUARE under/overflows */
 /* number of generator classes per family */
 static int const fam_ngen[14] = {0, 1, 2, 4, 2, 2, 4, 8, 4, 2, 2, 1, 1, 2};
 
@@ -1537,7 +1537,7 @@ static void vf_init(void)
         {
             for (int g = 0; g < fam_ngen[f]; ++g)
             {
-                for (int s = 0; s < 7; ++s)
+                for (int s = 0; s < 9; ++s)
                 {
                     for (int o = 0; o < 2; ++o) { plan_add(K_MF, (uint64_t)f | (uint64_t)g << 8 | (uint64_t)s << 16 | (uint64_t)o << 24 | rep << 32); }
                 }
